@@ -182,12 +182,12 @@ Proof.
     pose proof (SB_pair w jc_u
       (hexchar (nib hi 0) (N.testbit up 0)) (hexchar (nib hi 1) (N.testbit up 1))
       (hexchar (nib hi 2) (N.testbit up 2)) (hexchar (nib hi 3) (N.testbit up 3))
-      jc_bslash jc_u
+      jc_u
       (hexchar (nib lo 0) (N.testbit (N.shiftr up 4) 0)) (hexchar (nib lo 1) (N.testbit (N.shiftr up 4) 1))
       (hexchar (nib lo 2) (N.testbit (N.shiftr up 4) 2)) (hexchar (nib lo 3) (N.testbit (N.shiftr up 4) 3))
       t d eq_refl eq_refl) as G.
     rewrite (hex4v_print hi up H) in G. rewrite (hex4v_print lo (N.shiftr up 4) Hlo2) in G.
-    rewrite Hcode in G. apply G; assumption.
+    rewrite Hcode in G. apply G; try assumption; reflexivity.
 Qed.
 
 Theorem str_ok : forall w, str_ok_stmt w.
